@@ -66,6 +66,7 @@ def hazard_pointer_rules(ctx):
     # C02.a / C17.a thread exit
     chain(ctx, "HP.thread-exit", HP + "thread_data::~thread_data", [call("thread_data::scan"), call("abandon_retired_nodes")], label="scan<abandon")
     _exit_handover(ctx, "HP.thread-exit", HP + "thread_data::~thread_data", "retire_list", call("abandon_retired_nodes"), call("release_entry"))
+    _handover_unless_empty(ctx, "HP.thread-exit", HP + "thread_data::~thread_data", "retire_list", call("abandon_retired_nodes"))
     # C17.d (re)initialisation of an adopted block
     chain(ctx, "HP.block-init", HP + "thread_data::ensure_has_control_block", [call("acquire_entry"), call("initialize")], label="acquire<initialize",
           why="an adopted control block has a stale free list; it must be rebuilt before the first allocation")
@@ -140,6 +141,23 @@ def _hp_acquire_exit(ctx, HP):
             ok, path, n = flow.only_via_want(fn, r, flow.equal_want(lambda f, x: flow.has_src(f, x, "load:param#0") or flow.has_src(f, x, "field:ptr")))
             ctx.check(ok and n > 0, rid, inst, "'return true' only when the reloaded pointer equals the first load",
                       "'return true' reachable without the re-validation comparison being false", fn.where(r), fn=fn, path=flow.describe_path(fn, path))
+
+
+def _handover_unless_empty(ctx, rid, pat, list_leaf, handover):
+    """at thread exit the pending retired nodes are handed over unless there are none: every path through the destructor passes the hand-over
+    call, or takes the 'list is empty' edge of a null test of the list head, or the 'no control block' edge (such a thread never retired anything).
+    A threshold (as used when a live thread merely trims its list) is not such an edge - nodes below it would die with the thread."""
+    for fn in flow._shapes(ctx, pat):
+        hs = flow.find(fn, handover)
+        if not hs:
+            continue          # reported by the hand-over rule itself
+        empty = flow.null_want(lambda f, x: flow.has_src(f, x, "field:" + list_leaf) or flow.has_src(f, x, "field:control_block"))
+        lic, _n = flow.licensed_edges(fn, empty)
+        blocked = {fn.pos()[h][0] for h in hs if h in fn.pos()}
+        leak = flow._path(fn, fn.entry, fn.exit, lic, blocked) if fn.entry not in blocked else None
+        ctx.check(leak is None, rid, pat + "#handover-unless-empty", "the hand-over is skipped only when the retire list is empty",
+                  "the thread_data destructor can skip the hand-over of its retired nodes although the list is not empty (the skipping condition is not the emptiness of "
+                  "'%s'): those nodes die with the thread and are never destroyed" % list_leaf, fn.where(hs[0]), fn=fn, path=flow.describe_path(fn, leak or []))
 
 
 def _exit_handover(ctx, rid, pat, list_field, handover, release):
@@ -219,6 +237,7 @@ def hazard_eras_rules(ctx):
     # thread exit
     chain(ctx, "HE.thread-exit", HE + "thread_data::~thread_data", [call("thread_data::scan"), call("abandon_retired_nodes")], label="scan<abandon")
     _exit_handover(ctx, "HE.thread-exit", HE + "thread_data::~thread_data", "retire_list", call("abandon_retired_nodes"), call("release_entry"))
+    _handover_unless_empty(ctx, "HE.thread-exit", HE + "thread_data::~thread_data", "retire_list", call("abandon_retired_nodes"))
     chain(ctx, "HE.block-init", HE + "thread_data::ensure_has_control_block", [call("acquire_inactive_entry"), call("initialize"), call("activate")],
           label="inactive<initialize<activate", why="the block must not be visible as active to scans before its slots are re-initialised")
     chain(ctx, "HE.block-init", HE + "thread_data::alloc_hazard_era", [call("ensure_has_control_block"), call("alloc_hazard_era")], label="ensure<alloc")
@@ -646,6 +665,40 @@ def stamp_rules(ctx):
         ctx.check(bool(h) and bool(ab), "STAMP.thread-exit", TD + "~thread_data#handover", "pending nodes go to the global list; control block abandoned",
                   "thread exit must hand its pending retired nodes to the global list and abandon its control block (found %d / %d)" % (len(h), len(ab)), fn.where(), fn=fn)
     chain(ctx, "STAMP.thread-exit", TD + "~thread_data", [call("process_local_nodes"), call("add_to_global_retired_nodes")], label="process<handover")
+    _handover_unless_empty(ctx, "STAMP.thread-exit", TD + "~thread_data", "first_retired_node", call("add_to_global_retired_nodes"))
+    # lock-freedom of remove(): a block whose push is still pending is HELPED (its PendingPush flag is cleared by CAS), not waited for
+    ctx.rule("STAMP.help-pending-push", "stamp-it remove(): when the predecessor's push is still pending its PendingPush flag is cleared by a helping CAS on every path; the "
+                                        "remover never waits for the pushing thread")
+    H = S + "thread_order_queue::save_next_as_last_and_move_next_to_next_prev"
+    for fn in flow._shapes(ctx, H):
+        def pending(f, nid):
+            # (stamp & PendingPush) != 0
+            c = flow.eq_cmp(f, nid)
+            if c is None or not any(f.nodes[x]["k"] == "ref" and f.nodes[x].get("name", "").endswith("PendingPush") for x in f.subtree(nid)):
+                return None
+            zero = flow.const_value(f, c[1]) == 0 or flow.const_value(f, c[2]) == 0
+            return (c[0] == "!=") if zero else None
+        cas = [e for e in flow.find(fn, {"k": "call", "kind": "cas"}) if fn.atomic(e)["field"].endswith("stamp")]
+        lic, n_ = flow.licensed_edges(fn, pending)
+        inst = H + "#helps-pending-push"
+        if n_ == 0:
+            ctx.broken.append("stamp-it: PendingPush test not found in save_next_as_last_and_move_next_to_next_prev")
+            continue
+        # every way out of the 'push pending' branch passes the helping CAS
+        starts = {s_ for (b_, s_) in lic if fn.blocks[b_].get("term") not in ("&&", "||")}     # the branch taken when the WHOLE condition holds
+        blocked = {fn.pos()[c_][0] for c_ in cas if c_ in fn.pos()}
+        leak = None
+        for s_ in starts:
+            if s_ in blocked:
+                continue
+            pth = flow._path(fn, s_, fn.exit, set(), blocked)
+            if pth is not None:
+                leak = pth
+        ctx.check(bool(cas) and leak is None, "STAMP.help-pending-push", inst, "a block with a pending push is helped by CAS on every path",
+                  "when the predecessor's push is still pending the function returns without helping to clear its PendingPush flag: a thread leaving its critical region "
+                  "then spins until the owner of that block is scheduled again (guard release / reclaim stop being lock-free)", fn.where(cas[0]) if cas else fn.where(), fn=fn,
+                  path=flow.describe_path(fn, leak or []))
+
     chain(ctx, rid, S + "guard_ptr::reclaim", [call("set_deleter"), call("add_retired_node")], label="deleter<retire")
 
 
